@@ -239,6 +239,13 @@ func run(c *harness.Ctx, i int) {
 			c.NonTrivial("tar-stream|no-root|err%v", nerr != nil)
 			return
 		}
+		if i%2 == 1 && os.Getenv("VERIF_CLI") != "" && (rootStyle == "none" || rootStyle == "own") {
+			// `desync tar -i` reading the stream from STDIN into a store: intact, cut short, or with a member Tar refuses
+			// (a hard link) in the middle. Whatever the index of a run that exits 0 describes must be a well-formed archive.
+			if !cliTarIndex(c, rng, dir, tb.Bytes(), rootStyle != "own") {
+				return
+			}
+		}
 		if err := desync.Tar(context.Background(), &buf, desync.NewTarReader(bytes.NewReader(tb.Bytes()), desync.TarReaderOptions{AddRoot: rootStyle != "own"})); err != nil {
 			if rootStyle == "own+add" {
 				// a root of its own and one added: refusing that is fine
@@ -508,6 +515,101 @@ func sorted(m map[string]string) []string {
 	}
 	sort.Strings(out)
 	return out
+}
+
+// cliTarIndex feeds (a variant of) the tar stream to `desync tar -i --input-format tar` and validates the archive the
+// produced index describes. Returns false after a violation.
+func cliTarIndex(c *harness.Ctx, rng *rand.Rand, dir string, stream []byte, addRoot bool) bool {
+	variant := []string{"intact", "cut", "cut", "hardlink"}[rng.Intn(4)]
+	in := stream
+	switch variant {
+	case "cut":
+		in = stream[:rng.Intn(len(stream)+1)]
+	case "hardlink":
+		// insert a hard-link member at a member boundary (every header starts on a 512-byte block; find them by walking)
+		var offs []int64
+		cr := &countReader{r: bytes.NewReader(stream)}
+		tr := tar.NewReader(cr)
+		for {
+			if _, err := tr.Next(); err != nil {
+				break
+			}
+			io.Copy(io.Discard, tr)
+			offs = append(offs, (cr.n+511)/512*512)
+		}
+		var hb bytes.Buffer
+		hw := tar.NewWriter(&hb)
+		hw.WriteHeader(&tar.Header{Typeflag: tar.TypeLink, Name: "zz-hardlink", Linkname: "zz-target", Mode: 0644, ModTime: time.Unix(1500000000, 0), Format: tar.FormatPAX})
+		hw.Flush()
+		at := int64(0)
+		if len(offs) > 1 {
+			at = offs[rng.Intn(len(offs)-1)]
+		}
+		if at > int64(len(stream)) {
+			at = 0
+		}
+		in = append(append(append([]byte{}, stream[:at]...), hb.Bytes()...), stream[at:]...)
+	}
+	store := filepath.Join(dir, "cli-store")
+	os.MkdirAll(store, 0755)
+	idxFile := filepath.Join(dir, "cli.caidx")
+	args := []string{"tar", "-i", "--input-format", "tar", "-m", "1:2:4", "-n", fmt.Sprint(1 + rng.Intn(4)), "-s", store}
+	if addRoot {
+		args = append(args, "--tar-add-root")
+	}
+	args = append(args, idxFile, "-")
+	cmd := exec.Command(os.Getenv("VERIF_CLI"), args...)
+	cmd.Env = append(os.Environ(), "HOME="+dir)
+	cmd.Stdin = bytes.NewReader(in)
+	out, err := cmd.CombinedOutput()
+	c.Count("cli_tar_index_runs_"+variant, 1)
+	if err != nil {
+		if variant == "intact" {
+			c.Violation("cli-tar-failed", "desync %v on an intact tar stream failed: %v %s", args, err, out)
+			return false
+		}
+		c.NonTrivial("cli-tar-index|%s|refused", variant)
+		return true
+	}
+	raw, rerr := os.ReadFile(idxFile)
+	if rerr != nil {
+		c.Violation("malformed-archive:cli-index", "desync tar -i exited 0 without an index: %v", rerr)
+		return false
+	}
+	ix, perr := oracle.ParseCaibx(raw)
+	if perr != nil {
+		c.Violation("malformed-archive:cli-index", "index written by desync tar -i does not parse: %v", perr)
+		return false
+	}
+	ls, lerr := desync.NewLocalStore(store, desync.StoreOptions{})
+	dsu.Must(lerr)
+	var ab bytes.Buffer
+	for k, ch := range ix.Items {
+		chk, gerr := ls.GetChunk(desync.ChunkID(ch.ID))
+		if gerr != nil {
+			c.Violation("malformed-archive:cli-index", "chunk %d of the index written by desync tar -i is not in the store: %v", k, gerr)
+			return false
+		}
+		b, _ := chk.Data()
+		ab.Write(b)
+	}
+	if _, verr := oracle.ValidateCatar(ab.Bytes(), false); verr != nil {
+		c.Violation("malformed-archive:cli-index", "desync tar -i (tar stream from STDIN: %s, %d of %d bytes) exited 0 and the archive its index describes (%d bytes) is malformed: %v", variant, len(in), len(stream), ab.Len(), verr)
+		return false
+	}
+	c.NonTrivial("cli-tar-index|%s|accepted", variant)
+	return true
+}
+
+type countReader struct {
+	r io.Reader
+	n int64
+}
+
+func (c *countReader) Read(p []byte) (int, error) {
+	n, err := c.r.Read(p)
+	c.n += int64(n)
+	return n, err
 }
 
 func anchor(c *harness.Ctx) {
